@@ -152,6 +152,7 @@ let () =
          let (g', r) = wal_step crc !g (if o = "S" then WWriteSync pl else WWrite pl) in
          g := g';
          Printf.printf "w %s %s\n" (match r with WOk -> "ok" | WTooBig -> "toobig") (gobs ())
+       | ["L"; limit] -> g := { !g with g_limit = z_of_string limit }   (* headSizeLimit reconfigured *)
        | ["T"] -> g := fst (wal_step crc !g WTick); Printf.printf "t %s\n" (gobs ())
        | ["F"] -> g := fst (wal_step crc !g WFlush); Printf.printf "f %s\n" (gobs ())
        | ["R"] -> g := fst (wal_step crc !g WRotate); Printf.printf "r %s\n" (gobs ())
